@@ -10,6 +10,7 @@ INVARIANT Emit
 INVARIANT Antitone
 INVARIANT UnionOfParts
 INVARIANT CTypeIrrelevant
+INVARIANT ReferrerIrrelevant
 CHECK_DEADLOCK FALSE
 """
 
